@@ -578,6 +578,37 @@ func refersToAny(n ast.Node, names map[string]bool) bool {
 	return found
 }
 
+// touchesPending: n mentions the pending map itself, or calls (one level) a same-file function whose body does.
+func touchesPending(f *ast.File, n ast.Node, pending string) bool {
+	if n == nil {
+		return false
+	}
+	if mentionsField(n, pending) {
+		return true
+	}
+	found := false
+	ast.Inspect(n, func(m ast.Node) bool {
+		c, ok := m.(*ast.CallExpr)
+		if !ok {
+			return true
+		}
+		name := ""
+		switch fn := c.Fun.(type) {
+		case *ast.Ident:
+			name = fn.Name
+		case *ast.SelectorExpr:
+			name = fn.Sel.Name
+		}
+		for _, d := range f.Decls {
+			if fd, ok := d.(*ast.FuncDecl); ok && fd.Name.Name == name && fd.Body != nil && mentionsField(fd.Body, pending) {
+				found = true
+			}
+		}
+		return true
+	})
+	return found
+}
+
 // execFacts: Option Bool terms for refusalStops / deferStops.
 func execFacts(o *Out) (refusal, deferred string) {
 	refusal, deferred = "none", "none"
@@ -594,7 +625,7 @@ func execFacts(o *Out) (refusal, deferred string) {
 	for _, st := range fd.Body.List {
 		switch s := st.(type) {
 		case *ast.AssignStmt:
-			if mentionsField(s, pending) {
+			if touchesPending(f, s, pending) {
 				for _, l := range s.Lhs {
 					if id, ok := l.(*ast.Ident); ok {
 						locals[id.Name] = true
@@ -602,14 +633,14 @@ func execFacts(o *Out) (refusal, deferred string) {
 				}
 			}
 		case *ast.IfStmt:
-			if !foundRefusal && (mentionsField(s.Cond, pending) || mentionsField(s.Init, pending) || refersToAny(s.Cond, locals)) {
+			if !foundRefusal && (touchesPending(f, s.Cond, pending) || touchesPending(f, s.Init, pending) || refersToAny(s.Cond, locals)) {
 				if _, r := hasLockOrReturn(s.Body); r {
 					foundRefusal = true
 					refusal = LeanOpt(true, boolLean(callsStop(f, s.Body)))
 				}
 			}
 		case *ast.DeferStmt:
-			if fl, ok := s.Call.Fun.(*ast.FuncLit); ok && mentionsField(fl.Body, pending) {
+			if fl, ok := s.Call.Fun.(*ast.FuncLit); ok && touchesPending(f, fl.Body, pending) {
 				foundDefer = true
 				deferred = LeanOpt(true, boolLean(callsStop(f, fl.Body)))
 			}
